@@ -432,7 +432,8 @@ func runC10(w *World, r *Report) {
 	r.Min("R1", 8)
 	r.Min("R2", 8)
 	r.Min("R3", 5)
-	r.Min("R4", 2)
+	checkHeapContract(w, r, "R4", pkgQueue, "PriorityQueue")
+	r.Min("R4", 6)
 	r.Min("R5", 3)
 	r.Min("R6", 6)
 	r.Min("R7", 6)
@@ -576,4 +577,123 @@ func checkInsertIfAbsent(r *Report, la *LockAn, rule, key string, fn *ssa.Functi
 	if n == 0 {
 		r.Undec(rule, key+"/insert-site", fn.Pos(), "no insertion into %s found", mapSuffix)
 	}
+}
+
+// checkHeapContract: the slice type implements container/heap's storage
+// contract - Len is the length, Swap exchanges exactly elements i and j, Push
+// appends the pushed item, Pop returns the last element and shrinks the slice
+// by exactly that element. (Less is checked separately: it is the ordering.)
+func checkHeapContract(w *World, r *Report, rule, pkg, typ string) {
+	get := func(m string) *ssa.Function {
+		f := w.Fn(pkg, typ+"."+m)
+		if f == nil {
+			r.Undec(rule, "heap/"+typ+"."+m, token.NoPos, "method not found")
+		}
+		return f
+	}
+	if f := get("Len"); f != nil {
+		ok := true
+		for _, alt := range ReturnAlts(f, 0) {
+			c, isC := peel(alt.Val).(*ssa.Call)
+			b, isB := (*ssa.Builtin)(nil), false
+			if isC {
+				b, isB = c.Call.Value.(*ssa.Builtin)
+			}
+			if !isC || !isB || b.Name() != "len" || !strings.HasSuffix(strings.TrimPrefix(Path(c.Call.Args[0]), "*"), canonRecv(f)) {
+				ok = false
+			}
+		}
+		r.Check(ok, rule, "heap/"+typ+".Len", f.Pos(), "Len returns len of the receiver")
+	}
+	if f := get("Swap"); f != nil && len(f.Params) == 3 {
+		recv, i, j := "param:"+canonParam(f.Params[0]), "param:"+canonParam(f.Params[1]), "param:"+canonParam(f.Params[2])
+		want := map[string]string{"&" + recv + "[" + i + "]": recv + "[" + j + "]", "&" + recv + "[" + j + "]": recv + "[" + i + "]"}
+		n, ok := 0, true
+		Instrs(f, func(in ssa.Instruction) {
+			if st, isSt := in.(*ssa.Store); isSt {
+				n++
+				if want[Path(st.Addr)] != Path(st.Val) || !loadedBefore(st.Val, f) {
+					ok = false
+				}
+			}
+		})
+		r.Check(ok && n == 2, rule, "heap/"+typ+".Swap", f.Pos(), "Swap stores the old element j at i and the old element i at j (both read before either store)")
+	}
+	if f := get("Push"); f != nil {
+		n, ok := 0, true
+		Instrs(f, func(in ssa.Instruction) {
+			st, isSt := in.(*ssa.Store)
+			if !isSt || Path(st.Addr) != "param:"+canonParam(f.Params[0]) {
+				return
+			}
+			n++
+			c, isC := peel(st.Val).(*ssa.Call)
+			if !isC {
+				ok = false
+				return
+			}
+			b, isB := c.Call.Value.(*ssa.Builtin)
+			if !isB || b.Name() != "append" || Path(c.Call.Args[0]) != "*param:"+canonParam(f.Params[0]) ||
+				!Derives(c.Call.Args[1], func(x ssa.Value) bool { return x == ssa.Value(f.Params[1]) }) {
+				ok = false
+			}
+		})
+		r.Check(ok && n == 1, rule, "heap/"+typ+".Push", f.Pos(), "Push stores append(*receiver, the pushed item) back into the receiver")
+	}
+	if f := get("Pop"); f != nil {
+		recv := "*param:" + canonParam(f.Params[0])
+		lastIdx := func(v ssa.Value) bool {
+			b, ok := peel(v).(*ssa.BinOp)
+			return ok && b.Op == token.SUB && Path(b.X) == "builtin.len("+recv+")" && Path(b.Y) == "1"
+		}
+		n, ok := 0, true
+		Instrs(f, func(in ssa.Instruction) {
+			st, isSt := in.(*ssa.Store)
+			if !isSt || Path(st.Addr) != "param:"+canonParam(f.Params[0]) {
+				return
+			}
+			n++
+			sl, isSl := peel(st.Val).(*ssa.Slice)
+			if !isSl || Path(sl.X) != recv || sl.High == nil || !lastIdx(sl.High) {
+				ok = false
+				return
+			}
+			if sl.Low != nil {
+				if k, isK := sl.Low.(*ssa.Const); !isK || k.Value == nil || k.Value.ExactString() != "0" {
+					ok = false
+				}
+			}
+		})
+		okRet := true
+		for _, alt := range ReturnAlts(f, 0) {
+			u, isU := peel(alt.Val).(*ssa.UnOp)
+			if !isU {
+				okRet = false
+				continue
+			}
+			ia, isIA := u.X.(*ssa.IndexAddr)
+			if !isIA || Path(ia.X) != recv || !lastIdx(ia.Index) {
+				okRet = false
+			}
+		}
+		r.Check(ok && n == 1 && okRet, rule, "heap/"+typ+".Pop", f.Pos(), "Pop returns element len-1 and stores receiver[0:len-1] back (shrinks by exactly the returned element)")
+	}
+}
+
+func canonRecv(f *ssa.Function) string { return "param:" + canonParam(f.Params[0]) }
+
+// loadedBefore: v is a load that precedes every store of f (so a swap reads
+// both elements before it overwrites either).
+func loadedBefore(v ssa.Value, f *ssa.Function) bool {
+	ld, ok := v.(*ssa.UnOp)
+	if !ok {
+		return false
+	}
+	okAll := true
+	Instrs(f, func(in ssa.Instruction) {
+		if st, isSt := in.(*ssa.Store); isSt && !domInstr(ld, st) {
+			okAll = false
+		}
+	})
+	return okAll
 }
